@@ -504,7 +504,15 @@ def real_vocabulary(ctx, stats):
         lines = vocab[isa]
         if quick:
             lines = ctx.rng.sample(lines, min(60, len(lines)))
-        for arch in corpus.archs_of(isa, quick=quick):
+        archs = list(corpus.archs_of(isa, quick=quick))
+        # models that define a load/store multiplier other than 1 are always included (the property's "multipliers" clause)
+        for a in corpus.archs_of(isa, quick=False):
+            if a not in archs:
+                raw = pressure.load_raw(a)
+                mult = [v for k in ("load_throughput_multiplier", "store_throughput_multiplier") for v in (raw.get(k) or {}).values()]
+                if any(float(v) != 1.0 for v in mult if v is not None):
+                    archs.append(a)
+        for arch in archs:
             mm = MachineModel(arch=arch)
             impl = S.Impl(mm)
             sem = ArchSemantics(mm)
@@ -514,6 +522,70 @@ def real_vocabulary(ctx, stats):
             run_model(ctx, arch, isa, model, impl, sem, lines, {"arch": arch}, stats, lines)
             ctx.count("real_vocabulary_lines", stats["compared"] - before)
             ctx.count("shipped_models")
+            cli_agreement(ctx, arch, isa, impl, sem, lines, stats)
+
+
+def cli_agreement(ctx, arch, isa, impl, sem, lines, stats):
+    """The numbers of the property as the command line reports them: the same instructions through `osaca.inspect --fixed`
+    (uniform scheduling: the composed pressure is shown as it is) must carry exactly the throughput, latency, pressure and
+    micro-ops the composition assigns through the library."""
+    import argparse
+    import io
+
+    import osaca.osaca as oo
+    from osaca.frontend import Frontend
+
+    lib = {}
+    good = []
+    for line in lines:
+        o = observe(impl, sem, line)
+        if "tp" in o and "exc" not in o and line not in lib:
+            lib[line] = o
+            good.append(line)
+    if not good:
+        return
+    good = good[:40]
+    captured = {}
+    orig = Frontend.full_analysis
+
+    def spy(self, kernel, *a, **k):
+        captured["kernel"] = kernel
+        return orig(self, kernel, *a, **k)
+
+    f = io.StringIO("\n".join(good) + "\n")
+    f.name = "vocabulary.s"
+    args = argparse.Namespace(file=f, arch=arch, fixed=True, verbose=0, ignore_unknown=True, lines=None, lcd_timeout=-1,
+                              consider_flag_deps=False, dotpath=None, yaml_out=None)
+    Frontend.full_analysis = spy
+    try:
+        oo.inspect(args, output_file=io.StringIO())
+    except BaseException as e:  # noqa
+        ctx.violation("%s: `osaca --fixed` on %d memory instructions of the shipped kernels raises %s: %s" % (arch, len(good), type(e).__name__, e),
+                      {"kind": "cli", "arch": arch, "isa": isa, "lines": good, "exception": type(e).__name__}, key="cli-crash:%s" % arch)
+        return
+    finally:
+        Frontend.full_analysis = orig
+    for form in captured.get("kernel", []):
+        o = lib.get(form.line.strip()) or lib.get(form.line)
+        if o is None or form.mnemonic is None:
+            continue
+        stats["cli_lines"] = stats.get("cli_lines", 0) + 1
+        got = {"tp": form.throughput, "lat": form.latency, "pressure": [float(x) for x in form.port_pressure],
+               "uops": plain(list(form.port_uops))}
+        want = {"tp": o["tp"], "lat": o["lat"], "pressure": o["pressure"], "uops": o["uops"] if not isinstance(o["uops"], dict) else None}
+        diff = [k for k in ("tp", "lat", "pressure") if got[k] != want[k]]
+        if want["uops"] is not None and not isinstance(form.port_uops, dict) and got["uops"] != want["uops"] and "uops" not in diff:
+            # alternatives are resolved to the first one by --fixed: only plain lists are compared
+            if not (isinstance(o["uops"], list) and o["uops"] and not isinstance(o["uops"][0], (list, tuple))):
+                diff.append("uops")
+        if diff:
+            ctx.violation("%s: `%s` analysed by `osaca --fixed` reports %s = %s, the composition (register form + load/store data) gives %s"
+                          % (arch, form.line.strip(), diff[0], got[diff[0]], want[diff[0]]),
+                          {"kind": "cli", "arch": arch, "isa": isa, "lines": good, "line": form.line.strip(), "cli": got, "library": want},
+                          key="cli:%s:%s" % (arch, form.line.strip()))
+            break
+    ctx.count("cli_lines_compared", stats.get("cli_lines", 0))
+    stats["cli_lines"] = 0
 
 
 def run(ctx):
@@ -562,6 +634,14 @@ def replay(ctx, path):
     warnings.filterwarnings("ignore")
     from osaca.semantics import ArchSemantics, MachineModel
 
+    if rep.get("kind") == "cli":
+        mm = MachineModel(arch=rep["arch"])
+        before = len(ctx.violations)
+        cli_agreement(ctx, rep["arch"], rep["isa"], S.Impl(mm), ArchSemantics(mm), rep["lines"], {})
+        bad = ctx.violations[before:]
+        print("CLI --fixed vs composition on %d lines of %s: %s" % (len(rep["lines"]), rep["arch"], bad[0]["what"] if bad else "agree"))
+        ctx.cleanup()
+        return 1 if bad else 0
     if rep.get("kind") not in ("history", "composed", "unknown"):
         print("replay names a broken theorem/correspondence, not an input:", json.dumps(rep)[:800])
         ctx.cleanup()
